@@ -39,6 +39,7 @@ def processLine (brotliDict : ByteArray) (line : String) : String :=
       | "win" => handleWin kv
       | "bz" => handleBz kv
       | "bzw" => handleBzw kv
+      | "bzr" => handleBzr kv
       | "rle1e" => handleRle1e kv
       | "rle1d" => handleRle1d kv
       | "mtfe" => handleMtfe kv
